@@ -104,7 +104,7 @@ class Expect:
         self.built = []          # (source, output) of the sources the reference semantics completes
 
 
-def spec_project(ctx, files, dirs, inputs, recursive, mode, trailing, base=BASE):
+def spec_project(ctx, files, dirs, inputs, recursive, mode, trailing, base=BASE, links=None):
     """files: {abs path: content tuple}; dirs: set of abs paths.  -> Expect"""
     ex = Expect()
     fs = dict(files)
@@ -133,10 +133,20 @@ def spec_project(ctx, files, dirs, inputs, recursive, mode, trailing, base=BASE)
         if p not in selected:
             selected.append(p)
 
+    links = {k.encode() if isinstance(k, str) else k: (t.encode() if isinstance(t, str) else t) for k, t in (links or {}).items()}
+
     def scan(d):
         for p in sorted(fs):
             if dir_of(p) == d and is_txtpp(p):
                 add(p)
+        # an entry that is a symbolic link counts as what it points to (is_file / is_dir follow links); the source is processed
+        # under its real path
+        for l, t in sorted(links.items()):
+            if dir_of(l) == d:
+                if t in fs and is_txtpp(l):
+                    add(t)
+                elif t in dirs and recursive:
+                    scan(t)
         if recursive:
             for sd in sorted(dirs):
                 if dir_of(sd) == d and sd != d:
@@ -144,6 +154,7 @@ def spec_project(ctx, files, dirs, inputs, recursive, mode, trailing, base=BASE)
     try:
         for inp in inputs:
             p = norm(posixpath.join(base, inp.encode() if isinstance(inp, str) else inp))
+            p = links.get(p, p)
             if p in dirs:
                 scan(p)
             elif not is_txtpp(p):
@@ -345,6 +356,26 @@ def layout(ctx, name):
         }
         dirs = {b'/w'}
         return files, dirs, {'x0': syms_of((x0,)), 'x1': syms_of((x1,)), 'picks': picks}
+    elif name == 'links':
+        # a project directory that reaches sources through symbolic links: a linked source file and a linked sub-directory
+        files = {
+            b'/w/proj/top.txtpp': T(b't') + (x0,) + T(b'\n'),
+            b'/w/shared/part.txtpp': T(b'p') + (x1,) + T(b'\n#TXTPP#run false\n'),
+            b'/w/shared/sub/deep.txtpp': T(b'-TXTPP#include missing.txt\n'),
+            b'/w/shared/sub/fine.txtpp': T(b'f\n'),
+        }
+        dirs = {b'/w', b'/w/proj', b'/w/shared', b'/w/shared/sub'}
+        return files, dirs, {'x0': syms_of((x0,)), 'x1': syms_of((x1,)),
+                             'links': {'/w/proj/part.txtpp': '/w/shared/part.txtpp', '/w/proj/sublink': '/w/shared/sub'}}
+    elif name == 'links-ok':
+        files = {
+            b'/w/proj/top.txtpp': T(b't') + (x0,) + T(b'\n'),
+            b'/w/shared/part.txtpp': T(b'p') + (x1,) + T(b'\n#TXTPP#run echo P\n'),
+            b'/w/shared/sub/deep.txtpp': T(b'-TXTPP#include ../part\n'),
+        }
+        dirs = {b'/w', b'/w/proj', b'/w/shared', b'/w/shared/sub'}
+        return files, dirs, {'x0': syms_of((x0,)), 'x1': syms_of((x1,)),
+                             'links': {'/w/proj/part.txtpp': '/w/shared/part.txtpp', '/w/proj/sublink': '/w/shared/sub'}}
     elif name == 'mixed-le':
         # sources with different line endings processed one after the other (by the same worker when there is one thread)
         files = {
@@ -425,6 +456,9 @@ def h_project(m, ctx, lay, inputs, mode='Build', recursive=False, trailing=True,
         env.add_dir(d)
     for p, c in files.items():
         env.add_file(p, c)
+    links = symdesc.get('links') or {}
+    for l, t in links.items():
+        env.add_symlink(l.encode(), t.encode())
     env.add_file(b'/bin/sh', b'')
     env.sched_policy = 'fifo'
 
@@ -446,7 +480,7 @@ def h_project(m, ctx, lay, inputs, mode='Build', recursive=False, trailing=True,
             'threads': threads}
     ref_fs = dict(files)
     for si, (md, inputs, recursive, trailing) in enumerate(steps):
-        exp = spec_project(ctx, ref_fs, dirs, inputs, recursive, md, trailing)
+        exp = spec_project(ctx, ref_fs, dirs, inputs, recursive, md, trailing, links=links)
         cfg = sched.mk_config(m, inputs, md, recursive, threads)
         cfg = StructV('Config', cfg.f[:7] + (trailing,))
         env.log = []
@@ -516,7 +550,8 @@ def replay(native, v):
 
         def choose(self, n, label):
             return self.picks.pop(0)
-    files, dirs, _ = layout(_C(), d['layout'])
+    files, dirs, desc_ = layout(_C(), d['layout'])
+    links = desc_.get('links') or {}
     files = stale_outputs(files, d.get('pre', 'none'))
     root = tempfile.mkdtemp(prefix='replay-proj-', dir=build.scratch_dir())
 
@@ -528,11 +563,17 @@ def replay(native, v):
         os.makedirs(os.path.dirname(real(p)), exist_ok=True)
         open(real(p), 'wb').write(bytes(c))
 
+    for l, t in links.items():
+        os.makedirs(os.path.dirname(root + l), exist_ok=True)
+        os.symlink(root + t, root + l)
+
     def snap():
         out = {}
         for dp, dn, fn in os.walk(real(BASE)):
             for f in fn:
                 p = os.path.join(dp, f)
+                if os.path.islink(p):
+                    continue                       # the link itself is not a generated file; its target is listed under its real path
                 out[p[len(root):].encode()] = tuple(open(p, 'rb').read())
         return out
     cli = ppreplay.cli_path()
@@ -545,7 +586,7 @@ def replay(native, v):
     for st_ in d['steps']:
         md, inputs, recursive = st_[0], st_[1], st_[2]
         trailing_ = st_[3] if len(st_) > 3 else d['trailing']
-        exp = spec_project(cc, ref, set(dirs), inputs, recursive, md, trailing_)
+        exp = spec_project(cc, ref, set(dirs), inputs, recursive, md, trailing_, links=links)
         before = snap()
         args = [cli] + list(MODE_ARGS[md]) + ['-q', '-j', str(d.get('threads', 2))]
         if recursive:
@@ -624,6 +665,13 @@ def jobs(prop, tier):
         # (only m is named: a command that reads a generated file it does not depend on has no defined order w.r.t. that file's build)
         js.append(_job(prop, 'every %d-line source over the dependency menu (self-include = cycle)' % G, gen, [(B, ['m.txt'], False)], pre='stale'))
         js.append(_job(prop, 'same, needed-build', gen_small, [(N, ['m.txt'], False)], pre='stale'))
+    if prop in ('C03', 'C04', 'C11'):
+        # sources reached through symbolic links (a linked file, a linked sub-directory): processed like any other entry, and their faults count
+        for md in ((B, V) if prop != 'C03' else (B,)):
+            for rec in (False, True):
+                js.append(_job(prop, '%s through symbolic links (failing sources behind them) recursive=%s' % (md, rec), 'links', [(md, ['proj'], rec)]))
+        for rec in (False, True):
+            js.append(_job(prop, 'Build through symbolic links recursive=%s, then clean' % rec, 'links-ok', [(B, ['proj'], rec), (C, ['proj'], rec)]))
     if prop in ('C03', 'C10', 'C11', 'C18'):
         # the library entry point with an empty input list: nothing is selected, nothing is touched, the run ends
         for md in (B, N, V, C):
